@@ -559,6 +559,9 @@ Fixpoint run_fops (fuel : nat) (memo : bool) (s : fstate) (l : list Z) : list Z 
     | 6 :: z :: r => run_fops f memo (apply_edit memo s (ESetType z)) r
     | 7 :: z :: r => run_fops f memo (apply_edit memo s (ESetTpb z)) r
     | 8 :: i :: j :: v :: r => run_fops f memo s r      (* an attribute other than time is assigned: no effect on merging *)
+    | 10 :: i :: j :: d :: r => run_fops f memo (apply_edit memo s (EShift (Z.to_nat i) (Z.to_nat j) d)) r
+    | 11 :: i :: j :: r => run_fops f memo (apply_edit memo s (ESwap (Z.to_nat i) (Z.to_nat j))) r
+    | 12 :: i :: r => run_fops f memo (apply_edit memo s (EReverse (Z.to_nat i))) r
     | 9 :: r => let '(s', o) := observe memo s in
                 (match o with Ok m => 0 :: out_evs m | Raise e => [-1; exn_code e] end) ++ [-9] ++ run_fops f memo s' r
     | _ => bad_input
